@@ -229,7 +229,11 @@ func checkC01(c *Ctx, r *Report) {
 	c.checkLoggerGates(r, ro)
 	c.checkParseLevelRange(r)
 	c.checkChain(r, ro)
-	c.checkChainSemantics(r, ro)
+	if conclusive, ok := c.checkChainSemantics(r, ro); conclusive && ok {
+		r.Decide([]string{"C01.chain:"}, nil, "sort-and-chain evaluated over every reference set of size 1–4")
+	}
+	c.checkParseSemantics(r, ro)
+	c.checkFanoutSemantics(r, ro, "C01.fanout-values")
 	c.checkSplit(r, ro)
 }
 
